@@ -51,8 +51,86 @@ static void batch_case(uint64_t N, int native, unsigned batch, unsigned seeds) {
   case_end(calls > 0);
 }
 
+// in-place calls with res_size < a_size: the limbs res_size..a_size-1 of the aliased buffer are not outputs; they are
+// source data and must be bit-for-bit unchanged (stride padding included)
+static void inplace_tail_case(uint64_t N, MODULE_TYPE mt, int native, int which, uint64_t rs, uint64_t as, unsigned slc, unsigned rep) {
+  static const char* nm[] = {"vec_znx_copy", "vec_znx_negate", "vec_znx_rotate", "vec_znx_automorphism", "vec_znx_normalize_base2k", "vec_znx_add(res==a)", "vec_znx_sub(res==b)", "vec_znx_big_rotate", "vec_znx_big_automorphism", "vec_znx_big_add(res==a)"};
+  char key[128];
+  snprintf(key, sizeof key, "%s(in place, res_size<a_size)|%s%s", nm[which], mt == NTT120 ? "ntt120" : "fft64", native ? "" : ",generic");
+  if (!case_begin(key, "N=%" PRIu64 " res=%" PRIu64 " a=%" PRIu64 " sl=%u rep=%u", N, rs, as, slc, rep)) return;
+  rng_t* r = crng();
+  const MODULE* mod = get_module(N, mt, native);
+  const int big = which >= 7;
+  zvec_t X, B;
+  zvec_alloc(&X, N, as, big ? N : stride_choice(N, slc), 8 * (rep % 8));
+  zvec_alloc(&B, N, 2, N, 8);
+  for (uint64_t l = 0; l < as; l++)
+    for (uint64_t i = 0; i < N; i++) zvec_limb(&X, l)[i] = rng_sbits(r, 60);
+  for (uint64_t i = 0; i < 2 * N; i++) B.p[i] = rng_sbits(r, 60);
+  // snapshot of everything from limb rs on (limb contents and padding)
+  snap_t tail;
+  zvec_t T = X;  // view used only for (un)poisoning inside zvec_snap
+  (void)T;
+  snap_t whole;
+  zvec_snap(&whole, &X);
+  const size_t off = (size_t)(rs * X.sl) * 8;
+  gbuf_t gt;
+  uint8_t* tmp = gb_alloc(&gt, vec_znx_normalize_base2k_tmp_bytes(mod), 8, 8, 4096);
+  const int64_t p = rng_sbits(r, 30) | (which == 3 || which == 8);
+  switch (which) {
+    case 0: vec_znx_copy(mod, X.p, rs, X.sl, X.p, as, X.sl); break;
+    case 1: vec_znx_negate(mod, X.p, rs, X.sl, X.p, as, X.sl); break;
+    case 2: vec_znx_rotate(mod, p, X.p, rs, X.sl, X.p, as, X.sl); break;
+    case 3: vec_znx_automorphism(mod, p, X.p, rs, X.sl, X.p, as, X.sl); break;
+    case 4: vec_znx_normalize_base2k(mod, 1 + (uint64_t)(rep % 62), X.p, rs, X.sl, X.p, as, X.sl, tmp); break;
+    case 5: vec_znx_add(mod, X.p, rs, X.sl, X.p, as, X.sl, B.p, 2, B.sl); break;
+    case 6: vec_znx_sub(mod, X.p, rs, X.sl, B.p, 2, B.sl, X.p, as, X.sl); break;
+    case 7: vec_znx_big_rotate(mod, p, (VEC_ZNX_BIG*)X.p, rs, (VEC_ZNX_BIG*)X.p, as); break;
+    case 8: vec_znx_big_automorphism(mod, p, (VEC_ZNX_BIG*)X.p, rs, (VEC_ZNX_BIG*)X.p, as); break;
+    default: vec_znx_big_add(mod, (VEC_ZNX_BIG*)X.p, rs, (VEC_ZNX_BIG*)X.p, as, (VEC_ZNX_BIG*)B.p, 2);
+  }
+  // compare the tail [rs*sl, end) of the aliased buffer with the snapshot
+  {
+    snap_t now;
+    zvec_snap(&now, &X);
+    // the normalisation reads the dropped limbs (carry propagation) but must not write them either
+    if (now.n > off && memcmp(now.copy + off, whole.copy + off, now.n - off)) {
+      size_t i = off;
+      while (now.copy[i] == whole.copy[i]) i++;
+      viol("snapshot", "%s in place with res_size=%" PRIu64 " < a_size=%" PRIu64 ": source limb %zu (not part of the output) was modified at byte %zu of the buffer (N=%" PRIu64 ")", nm[which], rs, as, i / 8 / (size_t)X.sl, i, N);
+    }
+    free(now.copy);
+    free(whole.copy);
+    (void)tail;
+  }
+  char msg[160];
+  long wh;
+  if (zvec_check(&X, msg, sizeof msg) || zvec_check(&B, msg, sizeof msg) || gb_check(&gt, &wh)) viol("canary", "%s (in place): a buffer was written outside its extent", nm[which]);
+  cnt("inplace_tail_checks", 1);
+  cnt("source_bytes_compared", (as - rs) * N * 8);
+  sample("limbs %" PRIu64 "..%" PRIu64 " of the aliased source unchanged", rs, as - 1);
+  gb_free(&gt);
+  zvec_free(&X);
+  zvec_free(&B);
+  case_end(1);
+}
+
 void run_C18(void) {
   const int th = G.thorough;
+  if (!ro_available()) {
+    unsigned ctr = 0;
+    for (size_t ni = 0; ni < N_ALL_N; ni++)
+      for (int which = 0; which < 10; which++)
+        for (int cfg = 0; cfg < 3; cfg++) {
+          if (cfg == 2 && which >= 7) continue;
+          for (uint64_t as = 1; as <= 4; as++)
+            for (uint64_t rs = 0; rs < as; rs++) {
+              ctr++;
+              if (ALL_N[ni] > 64 && (mix64(ctr) % (th ? 4 : 16))) continue;
+              inplace_tail_case(ALL_N[ni], cfg == 2 ? NTT120 : FFT64, cfg != 1, which, rs, as, ctr % 4, 0);
+            }
+        }
+  }
   for (size_t ni = 0; ni < N_ALL_N; ni++) {
     const uint64_t N = ALL_N[ni];
     const unsigned batches = th ? (N <= 1024 ? 200 : (N <= 8192 ? 40 : 12)) : (N <= 1024 ? 6 : 2);
